@@ -21,8 +21,10 @@ import (
 //   [.., ..+nExits)         exit shapes: tail-position constructs exercised along each of their internal
 //                           exits, the exit taken being chosen by the turn number (appended so that the
 //                           indices - hence the generated programs - of the earlier blocks stay what they were)
-//   the rest (nEsc)         escape shapes (c02_escape.go): every turn creates closures over its own
-//                           parameters / locals, they escape the turn and are called later (appended last)
+//   [.., ..+nEsc)           escape shapes (c02_escape.go): every turn creates closures over its own
+//                           parameters / locals, they escape the turn and are called later (appended)
+//   the rest (nDepth)       depth-history cases (c02_depth.go): the stack goes deeper than it has ever
+//                           been in the runtime while loop frames are live (appended last)
 
 func init() {
 	fw.Register(&fw.Prop{
@@ -31,6 +33,7 @@ func init() {
 		Rule: "(a) every chain of <=2 tail-position wrappers (14 wrappers) x 5 call forms x {self, 2-cycle, 3-cycle} x {defun, labels, set-lambda} is run with iteration counts {1,2,10,100,1000(,20000)}; a host builtin samples len(Stack.Frames) and TailIterations each turn; longer chains are sampled; " +
 			"(a') exit shapes: every tail-position construct is also exercised along each of its internal exits (dotimes with a zero / negative / turn-dependent count, with and without body; if / cond branch and clause chosen by the turn number; let, let*, flet, labels, macrolet with zero, one, many bindings; progn / or / thread-first / thread-last with one..many forms; the call form itself chosen by the turn), alone x 11 call forms x 3 recursion kinds and in sampled chains with the other wrappers, iteration counts {1,2,24,120,1200(,24000)}: the sampled entry heights must repeat with the period of the exit selection (12 turns) and the maximum height must be the same for 24 and for 120, 1200 turns; " +
 			"(a'') escape shapes: every turn of the loop creates one or two closures over the loop's own parameters and locals of the turn (directly, through a nested lambda, a let / let* / flet / labels around the call, expr, an inner parameter, an &optional parameter, a closure that set!s what it captured; a fourth formal of kind &optional / &rest / &key), with set! of a captured parameter before / after the closure is created, and makes them escape (cons, append! to a vector, assoc! into a sorted-map, a global, a chain of closures, handed to the next turn which calls it); all (escape x capture x mutation) with the other dimensions, wrappers, call forms, recursion kinds and definers rotated and sampled; the closures are called after the loop (or in the next turn): the list of their values must be equal with elimination on and off and equal to the list predicted by construction (each closure sees the variables of the turn that created it); stack oracles as in (a); " +
+			"(a3) depth-history cases (c02_depth.go): the stack is driven deeper than it has ever been in the runtime WHILE loop frames are live, and the loops go on: tail loops (wrappers, 11 call forms, recursion kinds, definers as above) whose turns make a non-tail recursive excursion (13 kinds: plain, let initialiser, map / foldl callbacks, handler-bind, ignore-errors, funcall, apply, 2-cycle, non-final body form, labels-local, dotimes body, with a tail loop at the bottom) in one of 5 positions of the turn (non-final body form before / after the call made for effect, argument of the tail call, let initialiser around it, exit test), of a depth that grows from turn to turn through 2^k-1, 2^k, 2^k+1 frames (k = 4..11, thorough 13) and values in between, with calls made for effect from non-final body forms to functions of the cycle (8 call forms, behind a tail-position wrapper or not) on chosen turns, started at base depths 0..250; walks of 2- and 3-ary trees (spines, zigzags, combs whose teeth grow along the tail spine, random) that reach all children but one by non-tail calls (non-final body forms, wrapped, argument, let initialiser, map callback) and the last by a tail call, self and 2-cycle; Ackermann's function m = 1..3; all (excursion kind x position x recursion kind) plus sampled combinations: value, ordered effect trace and number of activations are fixed by construction, entry heights must not grow, the tail iterations counted on the live frames and the logical height must advance every turn, pushes = pops, only terminal unblocked frames collapse, the elimination-off run and a second run in the same runtime give the same transcript; " +
 			"(b) loops routed through handler-bind / ignore-errors / load-string / a macro body must keep their frames and handlers; (c) generated programs are run under elimination on, off (dormant debugger) and profiler and their transcripts compared. distinct_nontrivial counts distinct (shape, recursion kind, definer, iteration count) and program-feature signatures whose runs took >= 5 steps",
 		Assumptions: []string{
 			"a dormant Debugger (IsEnabled()==false) is the configuration that disables elimination, as the property states",
@@ -40,12 +43,13 @@ func init() {
 		Cases:       func(tier string) int { return c02Layout(tier).total },
 		Run:         c02Run,
 		Init:        c02Init,
+		Driver:      c02Driver,
 		Exhaustive:  func(tier string) bool { return false },
 		MinDistinct: func(tier string) int { return pick(tier, 600, 1500) },
 	})
 }
 
-type c02Lay struct{ nShapes, nBlocked, nTwin, nExits, nEsc, total int }
+type c02Lay struct{ nShapes, nBlocked, nTwin, nExits, nEsc, nDepth, total int }
 
 func c02Layout(tier string) c02Lay {
 	l := c02Lay{}
@@ -56,7 +60,8 @@ func c02Layout(tier string) c02Lay {
 	l.nTwin = pick(tier, 3000, 200000)
 	l.nExits = c02ExitExhaustive() + pick(tier, 250, 5000)
 	l.nEsc = c02EscExhaustive() + pick(tier, 200, 5000)
-	l.total = l.nShapes + l.nBlocked + l.nTwin + l.nExits + l.nEsc
+	l.nDepth = c02DepthExhaustive() + pick(tier, 175, 6000)
+	l.total = l.nShapes + l.nBlocked + l.nTwin + l.nExits + l.nEsc + l.nDepth
 	return l
 }
 
@@ -148,8 +153,8 @@ type c02Shape struct {
 	cycle   int    // 1 self, 2, 3
 	definer string // defun labels set-lambda
 	iters   []int
-	side    bool // the body also makes a NON-final call for effect to a function of the cycle
-	exits   bool // an exit shape: the path through the chain depends on the turn number
+	side    bool    // the body also makes a NON-final call for effect to a function of the cycle
+	exits   bool    // an exit shape: the path through the chain depends on the turn number
 	esc     *c02Esc // an escape shape: what the turns create and how it outlives them (c02_escape.go)
 }
 
@@ -424,6 +429,13 @@ type c02Mon struct {
 	badElide     string
 	maxHeight    int
 	pushes, pops int64
+	// depth-history block: where the frame array of the call stack moved (observed, never
+	// judged): the capacity seen by the push hook changed
+	watch       bool
+	live        func() bool // has the loop under observation been entered
+	lastCap     int
+	moveHeights []int
+	movesLive   int64
 }
 
 var c02Cur *c02Mon
@@ -451,6 +463,19 @@ func c02Init(w *fw.W) {
 				m.pushes++
 				if h > m.maxHeight {
 					m.maxHeight = h
+				}
+				if m.watch {
+					if c := cap(s.Frames); c != m.lastCap {
+						if m.lastCap != 0 {
+							if len(m.moveHeights) < 32 {
+								m.moveHeights = append(m.moveHeights, h)
+							}
+							if m.live != nil && m.live() {
+								m.movesLive++
+							}
+						}
+						m.lastCap = c
+					}
 				}
 			}
 		},
@@ -518,8 +543,10 @@ func c02Run(w *fw.W, idx int) {
 		c02RunTwin(w, idx)
 	case idx < l.nShapes+l.nBlocked+l.nTwin+l.nExits:
 		c02RunShapeS(w, c02ExitShapeFor(w, idx, idx-(l.nShapes+l.nBlocked+l.nTwin), w.Tier))
-	default:
+	case idx < l.nShapes+l.nBlocked+l.nTwin+l.nExits+l.nEsc:
 		c02RunShapeS(w, c02EscShapeFor(w, idx, idx-(l.nShapes+l.nBlocked+l.nTwin+l.nExits), w.Tier))
+	default:
+		c02RunDepth(w, c02DepthCaseFor(w, idx, idx-(l.nShapes+l.nBlocked+l.nTwin+l.nExits+l.nEsc), w.Tier))
 	}
 }
 
